@@ -1,7 +1,7 @@
 #!/usr/bin/env python3
 """dev/eq1.py <equiv name> <checks...> — run checks on one rewrite of controls.EQUIV (scratch copy)"""
 import os, sys, shutil, tempfile, subprocess
-sys.path.insert(0, "/verif")
+sys.path.insert(0, os.path.dirname(os.path.dirname(os.path.abspath(__file__))))
 from rtcpverif import controls
 name, checks = sys.argv[1], sys.argv[2:]
 e = [x for x in controls.EQUIV if x[0] == name][0]
@@ -12,7 +12,7 @@ try:
     open(fp, "w").write(s.replace(e[2], e[3]))
     env = dict(os.environ, RTCP_REPO=tmp, RTCP_EVIDENCE_DIR=os.path.join(tmp, "evidence"))
     for c in checks:
-        r = subprocess.run(["/verif/check", c], env=env, capture_output=True, text=True)
+        r = subprocess.run([os.path.join(controls.VERIF, "check"), c], env=env, capture_output=True, text=True)
         print(f"== {c}: exit {r.returncode}  {r.stdout.splitlines()[-1] if r.stdout else ''}")
         for l in r.stdout.splitlines():
             if l.startswith("  ") and not l.startswith("  floor"):
